@@ -32,7 +32,7 @@ ROWS = [
  ("C15h", "Set releases the shard lock before it invalidates the secondary copy", "in-place Set of a resident key, eviction and hand-off of it inside the window", "C15 (`evicted-entry-not-retrievable/overwritten-while-its-invalidation-of-the-secondary-copy-was-slow`)", "**missed at first** -> slow-invalidation script"),
  ("C15i", "`LoadingBuilder.Hybrid` leaves the admission probability at 0 on its copy of the options", "route Loading(l).Hybrid(s), first call", "C15 (`evicted-entry-not-retrievable/reloaded-instead/...`)", ""),
  ("C16h", "a load that stores over a resident entry is announced as an insert", "loading cache, key still in the map when the Get misses", "C16 (`estimatedsize!=sum-of-costs`)", ""),
- ("C16i", "an entry whose policy weight exceeds the capacity is unlinked from the policy but stays in the map", "two Sets of one key applied in reverse order, costs near MaxSize", "C02 (`resident-untracked`), C06 (`resident-untracked/cost-deltas-applied-in-reverse-order`); C16 silent", "C16 has no arm with reordered events"),
+ ("C16i", "an entry whose policy weight exceeds the capacity is unlinked from the policy but stays in the map", "two Sets of one key applied in reverse order, costs near MaxSize", "C16 (`estimatedsize!=sum-of-costs/cost-deltas-applied-in-reverse-order`), C02 (`resident-untracked`), C06", "**C16 missed at first** (no arm with reordered events) -> the reordered-cost-delta script shared with C06, judged on the size views"),
  ("C17h", "the aging reset skips words that hold no odd counter", "a reset while some word holds only even non-zero counters", "C17 (`reset-not-halving`)", ""),
  ("C17i", "a capacity request that does not grow the table restarts the sample period", "additions, EnsureCapacity(n <= len), additions", "C17 (`reset-overdue/...`)", ""),
  ("C18h", "pre-1.24 hasher: keys up to 8 bytes are loaded as a machine word (exact for 1, 2, 4, 8)", "key types of 3, 5, 6 or 7 bytes and different stack contents between two calls", "C18 (`equal-key-missed/[3]byte`, ...)", "**missed at first** (no such size in the matrix)"),
